@@ -33,27 +33,28 @@ def _run_variant(args: Tuple[str, str, Dict[str, Any]]) -> Dict[str, Any]:
     prop, repo, v = args
     t0 = time.time()
     res: Dict[str, Any] = {"id": v["id"], "kind": v["kind"], "file": v["file"], "what": v.get("what", "")}
-    path = os.path.join(repo, v["file"])
-    try:
-        src = open(path, encoding="utf-8").read()
-    except OSError:
-        res["outcome"] = "stale"
-        return res
-    edits = v.get("edits") or [{"old": v["old"], "new": v["new"]}]
-    for e in edits:
-        if src.count(e["old"]) != 1:
+    overlay: Dict[str, str] = {}
+    for part in v.get("files") or [{"file": v["file"], "edits": v.get("edits") or [{"old": v["old"], "new": v["new"]}]}]:
+        try:
+            src = open(os.path.join(repo, part["file"]), encoding="utf-8").read()
+        except OSError:
             res["outcome"] = "stale"
-            res["detail"] = f"anchor occurs {src.count(e['old'])} times"
             return res
-        src = src.replace(e["old"], e["new"])
+        for e in part["edits"]:
+            if src.count(e["old"]) != 1:
+                res["outcome"] = "stale"
+                res["detail"] = f"anchor occurs {src.count(e['old'])} times"
+                return res
+            src = src.replace(e["old"], e["new"])
+        try:
+            compile(src, part["file"], "exec")
+        except SyntaxError as ex:
+            res["outcome"] = "invalid"
+            res["detail"] = str(ex)
+            return res
+        overlay[part["file"]] = src
     try:
-        compile(src, v["file"], "exec")
-    except SyntaxError as ex:
-        res["outcome"] = "invalid"
-        res["detail"] = str(ex)
-        return res
-    try:
-        ix = Index(repo, overlay={v["file"]: src})
+        ix = Index(repo, overlay=overlay)
         ctx = Ctx(prop, "selftest", ix)
         mod = importlib.import_module(f"sa.rules.{prop.lower()}")
         mod.check(ctx)
